@@ -1352,3 +1352,149 @@ theorem endWalk_absent (ph : PH) (r : RecInfo) (ov : Bool) (hr : r.absent = true
       exact .cons (fun h => absurd h hn) (endWalk_absent ph r ov hr ms)
 
 end Fit.Activity
+
+namespace Fit.Activity
+open Fit.Value Fit.Msg Fit.Gen Fit.Gen.Tool
+
+/-! ### reducer by RDP with the simplifier's contract -/
+
+/-- strictly increasing -/
+def Inc (l : List Nat) : Prop := l.Pairwise (· < ·)
+
+theorem findFragments_filter : ∀ (fuel : Nat) (rs ps : List Nat), Inc rs → ps.Sublist rs → rs.length + ps.length < fuel →
+    findFragments fuel rs ps = rs.filter (fun r => !ps.contains r)
+  | 0, _, _, _, _, h => by omega
+  | fuel + 1, [], ps, _, hsub, _ => by
+    have : ps = [] := List.sublist_nil.mp hsub
+    subst this; simp [findFragments]
+  | fuel + 1, r :: rs, [], _, _, _ => by
+    simp only [findFragments, List.contains_nil, Bool.not_false]
+    exact (List.filter_eq_self.mpr (fun _ _ => rfl)).symm
+  | fuel + 1, r :: rs, p :: ps, hinc, hsub, hf => by
+    have hp := List.pairwise_cons.mp hinc
+    simp only [findFragments]
+    cases hsub with
+    | cons _ h =>
+      -- p :: ps is a sublist of rs: every element of it is greater than r
+      have hall : ∀ x ∈ p :: ps, r < x := fun x hx => hp.1 x (h.subset hx)
+      have hrp : r < p := hall p (List.mem_cons_self ..)
+      have hnot : (p :: ps).contains r = false := by
+        simp only [List.contains_eq_mem, decide_eq_false_iff_not]
+        intro hm; have := hall r hm; omega
+      simp only [hrp, ↓reduceIte, List.filter_cons, hnot, Bool.not_false]
+      rw [findFragments_filter fuel rs (p :: ps) hp.2 h (by simp only [List.length_cons] at hf ⊢; omega)]
+    | cons_cons _ h =>
+      -- r = p
+      have hnot : (r :: ps).contains r = true := by simp
+      simp only [Nat.lt_irrefl, ↓reduceIte, beq_self_eq_true, List.filter_cons, hnot, Bool.not_true, Bool.false_eq_true]
+      rw [findFragments_filter fuel rs ps hp.2 h (by simp only [List.length_cons] at hf ⊢; omega)]
+      apply List.filter_congr
+      intro x hx
+      have : x ≠ r := by have := hp.1 x hx; omega
+      simp [this]
+
+theorem le_of_mem_zipIdx {α : Type} : ∀ (xs : List α) (k : Nat) (p : α × Nat), p ∈ xs.zipIdx k → k ≤ p.2
+  | [], _, _, h => by simp at h
+  | x :: xs, k, p, h => by
+    simp only [List.zipIdx_cons, List.mem_cons] at h
+    rcases h with rfl | h
+    · exact Nat.le_refl _
+    · have := le_of_mem_zipIdx xs (k + 1) p h; omega
+
+theorem dropAt_filter {α : Type} : ∀ (xs : List α) (i : Nat) (frags : List Nat), Inc frags → (∀ f ∈ frags, i ≤ f) →
+    dropAt i frags xs = ((xs.zipIdx i).filter (fun p => !frags.contains p.2)).map (·.1)
+  | [], i, frags, _, _ => by cases frags <;> simp [dropAt]
+  | x :: xs, i, [], _, _ => by
+    simp only [dropAt, List.contains_nil, Bool.not_false]
+    rw [List.filter_eq_self.mpr (fun _ _ => rfl)]
+    simp
+  | x :: xs, i, f :: fs, hinc, hge => by
+    have hp := List.pairwise_cons.mp hinc
+    simp only [dropAt, List.zipIdx_cons, List.filter_cons]
+    by_cases hif : (i == f) = true
+    · have hif' : i = f := by simpa using hif
+      have hc : (f :: fs).contains i = true := by simp [hif']
+      simp only [hif, ↓reduceIte, hc, Bool.not_true, Bool.false_eq_true]
+      rw [dropAt_filter xs (i + 1) fs hp.2 (fun g hg => by have := hp.1 g hg; omega)]
+      congr 1
+      apply List.filter_congr
+      intro p hpm
+      have := le_of_mem_zipIdx xs (i + 1) p hpm
+      have hne : p.2 ≠ f := by omega
+      simp [hne]
+    · have hlt : i < f := by
+        have := hge f (List.mem_cons_self ..)
+        have hne : i ≠ f := by simpa using hif
+        omega
+      have hc : (f :: fs).contains i = false := by
+        simp only [List.contains_eq_mem, decide_eq_false_iff_not]
+        intro hm
+        rcases List.mem_cons.mp hm with h | h
+        · omega
+        · have := hp.1 i h; omega
+      simp only [hif, Bool.false_eq_true, ↓reduceIte, hc, Bool.not_false, List.map_cons]
+      rw [dropAt_filter xs (i + 1) (f :: fs) hinc (fun g hg => by
+        rcases List.mem_cons.mp hg with rfl | h
+        · omega
+        · have := hp.1 g h; omega)]
+
+theorem inc_idx (p : Message → Bool) : ∀ (ms : List Message) (k : Nat),
+    Inc (((ms.zipIdx k).filter fun q => p q.1).map (·.2))
+  | [], _ => List.Pairwise.nil
+  | m :: ms, k => by
+    simp only [List.zipIdx_cons, List.filter_cons]
+    split
+    · simp only [List.map_cons]
+      refine List.pairwise_cons.mpr ⟨?_, inc_idx p ms (k + 1)⟩
+      intro x hx
+      obtain ⟨q, hq, rfl⟩ := List.mem_map.mp hx
+      have := le_of_mem_zipIdx ms (k + 1) q (List.mem_filter.mp hq).1
+      omega
+    · exact inc_idx p ms (k + 1)
+
+theorem recordIndexes_inc (ms : List Message) : Inc (recordIndexes ms) := inc_idx isRecord ms 0
+
+theorem pointIndexes_sublist (ms : List Message) : (pointIndexes ms).Sublist (recordIndexes ms) := by
+  unfold pointIndexes recordIndexes
+  apply List.Sublist.map
+  have : (ms.zipIdx.filter fun p => isRecord p.1 && hasPoint p.1) = (ms.zipIdx.filter fun p => isRecord p.1).filter (fun p => hasPoint p.1) := by
+    rw [List.filter_filter]; apply List.filter_congr; intro x _; simp [Bool.and_comm]
+  rw [this]; exact List.filter_sublist
+
+theorem mem_recordIndexes_iff {ms : List Message} {m : Message} {i : Nat} (h : (m, i) ∈ ms.zipIdx) :
+    i ∈ recordIndexes ms ↔ isRecord m = true := by
+  constructor
+  · intro hi
+    obtain ⟨m', hm', hr⟩ := mem_recordIndexes hi
+    have := List.mk_mem_zipIdx_iff_getElem?.mp h
+    rw [this] at hm'; cases hm'; exact hr
+  · intro hr
+    exact List.mem_map.mpr ⟨(m, i), List.mem_filter.mpr ⟨h, hr⟩, rfl⟩
+
+/-- **RDP with the simplifier's contract**: if the simplifier answers with a sublist of the points it was handed, the
+result is the input without exactly the records whose point it dropped (a record without a valid position has no point
+and is dropped) -/
+theorem reduceByRdp_exact (simplified : List Nat) (ms : List Message) (hs : simplified.Sublist (pointIndexes ms))
+    (hne : (pointIndexes ms).isEmpty = false) : reduceByRdp simplified ms = .ok (rdpExpected simplified ms) := by
+  have hsub : simplified.Sublist (recordIndexes ms) := hs.trans (pointIndexes_sublist ms)
+  have hF := findFragments_filter ((recordIndexes ms).length + simplified.length + 1) (recordIndexes ms) simplified
+    (recordIndexes_inc ms) hsub (by omega)
+  have hincF : Inc ((recordIndexes ms).filter fun r => !simplified.contains r) :=
+    List.Pairwise.sublist List.filter_sublist (recordIndexes_inc ms)
+  simp only [reduceByRdp, hne, Bool.false_eq_true, ↓reduceIte, hF, defragment_eq]
+  rw [dropAt_filter ms 0 _ hincF (fun _ _ => Nat.zero_le _)]
+  simp only [rdpExpected]
+  congr 2
+  apply List.filter_congr
+  intro p hp
+  obtain ⟨m, i⟩ := p
+  have hiff := mem_recordIndexes_iff hp
+  simp only [List.contains_eq_mem, List.mem_filter, Bool.not_eq_eq_eq_not, Bool.not_true, decide_eq_false_iff_not,
+    decide_not, Bool.decide_and, Bool.not_and, Bool.not_not]
+  cases hr : isRecord m
+  · have : i ∉ recordIndexes ms := fun h => by rw [hiff.mp h] at hr; cases hr
+    simp [this]
+  · have : i ∈ recordIndexes ms := hiff.mpr hr
+    simp [this]
+
+end Fit.Activity
